@@ -1,4 +1,9 @@
 import InToto.Properties.C09
+#print axioms InToto.C09.executed_in_layout_order
+#print axioms InToto.C09.success_means_all_ran_with_exit_zero
+#print axioms InToto.C09.bad_command_fails
+#print axioms InToto.C09.first_inspection_snapshots
+#print axioms InToto.C09.inspections_never_panic
 #print axioms InToto.C09.no_inspections
 #print axioms InToto.C09.empty_command_fails
 #print axioms InToto.C09.unstartable_command_fails
